@@ -13,7 +13,7 @@ for f in glob.glob(os.path.join(src, "*_test.go")):
     shutil.copy(f, dst)
 m = json.load(open(os.path.join(src, "meta.json")))
 m["id"] = sid
-m["wave"] = 3
+m["wave"] = int(os.environ.get("WAVE", "3"))
 m["verified_by_me"] = ("tools/evalseed.sh / tools/evalpatch.sh: patch applies to a scratch worktree of /repo's HEAD (fix: commits included); "
                        "go build ./... ok; tests of the touched packages pass with the patch; the demonstration passes on the clean worktree "
                        "and fails with the patch; ./check <property> quick run against the patched worktree (VERIF_REPO), /repo untouched")
